@@ -102,13 +102,16 @@ class FunctionMixin:
 
             function_execution = self.as_context()
             result = function_execution.infer()
-            # A function can return itself (or a function that returns it).
+            # A function can return itself (or a function that returns it) and
+            # it can be called with itself as an argument.
             with recursion.execution_allowed(self.inference_state, self.tree_node) as allowed:
-                return_hint = result.get_type_hint() if allowed else None
-            body = self.py__name__() + '(%s)' % ', '.join([
-                param_name_to_str(n)
-                for n in function_execution.get_param_names()
-            ])
+                if not allowed:
+                    return None
+                return_hint = result.get_type_hint()
+                body = self.py__name__() + '(%s)' % ', '.join([
+                    param_name_to_str(n)
+                    for n in function_execution.get_param_names()
+                ])
             if return_hint is None:
                 return body
         else:
